@@ -41,4 +41,41 @@ def train (n : Nat) (K : Nat → Nat → α) (y : Nat → Bool) (C eps : α) (bi
     State α × Bool × Nat :=
   solve (if bias then 1 else 2) eps maxIter (csvmInit n K y C bias shrink) 0 0
 
+/-- `CSVMProblem` (class-specific `C`: `Cn` for label 0, `Cp` for label 1) and `GeneralQuadraticProblem` on weighted
+data (per-example box `C·w_k`; the unweighted problem is `w = 1`) -/
+def csvmInit2 (n : Nat) (K : Nat → Nat → α) (y : Nat → Bool) (Cn Cp : α) (w : Nat → α) (bias shrink : Bool) : State α :=
+  State.init n K bias shrink (fun k => if y k then (1.0 : α) else -(1.0 : α))
+    (fun k => if y k then (0.0 : α) else -(Cn * w k)) (fun k => if y k then Cp * w k else (0.0 : α))
+
+def train2 (n : Nat) (K : Nat → Nat → α) (y : Nat → Bool) (Cn Cp : α) (w : Nat → α) (eps : α) (bias shrink : Bool)
+    (maxIter : Nat) : State α × Bool × Nat :=
+  solve (if bias then 1 else 2) eps maxIter (csvmInit2 n K y Cn Cp w bias shrink) 0 0
+
+/-- `EpsilonSvmTrainer::trainSVM`: `2n` variables over the 2×2 block matrix `[[K,K],[K,K]]`, variable `k < n` is
+`alpha_k ∈ [0,C]` with linear term `y_k − tube`, variable `n+k` is `alpha*_k ∈ [−C,0]` with `y_k + tube` -/
+def epsInit (n : Nat) (K : Nat → Nat → α) (y : Nat → α) (C tube : α) (shrink : Bool) : State α :=
+  State.init (2 * n) (fun a b => K (a % n) (b % n)) true shrink
+    (fun k => if k < n then y k - tube else y (k - n) + tube)
+    (fun k => if k < n then (0.0 : α) else -C) (fun k => if k < n then C else (0.0 : α))
+
+/-- coefficients of the regression model: `alpha_k + alpha*_k` of the un-permuted solution -/
+def epsCoefficients (n : Nat) (s : State α) (zero : α) : Nat → α :=
+  fun k => unpermutedAlpha s zero k + unpermutedAlpha s zero (n + k)
+
+/-- `OneClassSvmTrainer::trainSVM`: `BoxedSVMProblem` with `alpha = 1/n`, zero linear term, box `[0, 1/(nu·n)]`;
+`nF` is `n` as a scalar -/
+def oneClassInit (n : Nat) (K : Nat → Nat → α) (nu nF : α) (shrink : Bool) : State α :=
+  State.initWith n K true shrink (fun _ => (0.0 : α)) (fun _ => (0.0 : α)) (fun _ => (1.0 : α) / (nu * nF))
+    (fun _ => (1.0 : α) / nF)
+
+/-- the offset loop of `OneClassSvmTrainer` (tests `alpha == 0` / `alpha == upper`, `std::max`/`std::min`) -/
+def oneClassOffset (s : State α) (upper : α) (cnt : Nat → α) : α :=
+  let r := (List.range s.n).foldl (fun (acc : α × α × α × Nat) i =>
+      let value := s.g i
+      if s.alpha i == (0.0 : α) then (smax value acc.1, acc.2.1, acc.2.2.1, acc.2.2.2)
+      else if s.alpha i == upper then (acc.1, smin value acc.2.1, acc.2.2.1, acc.2.2.2)
+      else (acc.1, acc.2.1, acc.2.2.1 + value, acc.2.2.2 + 1))
+    (-(1.0e100 : α), (1.0e100 : α), (0.0 : α), 0)
+  if r.2.2.2 > 0 then r.2.2.1 / cnt r.2.2.2 else (0.5 : α) * (r.1 + r.2.1)
+
 end SharkVerif.SvmTrainer
